@@ -140,6 +140,7 @@ def _nvfit_inputs(B, case):
     wl = None if wl_kind == "nowl" else B.int("window_length")
     sp = {"sp1": 1, "spint": B.int("sp"), "spbool": True, "spfloat": B.real("sp")}[sp_kind]
     obj = I.instantiate(cls, [], {"strategy": st, "window_length": wl, "sp": sp})
+    obj.ghost_params = {"strategy": st, "window_length": wl, "sp": sp}
     y = _sym_series(B, "y", nonempty=True)
     return {"self": obj, "y": y, "X": None, "fh": None}
 
@@ -178,16 +179,19 @@ def _nvfit_post(A, r):
         w_ = z3.If(Z(sp) == 1, 1, Z(sp))
     else:
         w_ = n if wl is None else Z(wl)
-    conds = [r is A.self, s.get("_is_fitted") is True, Eq(s["window_length_"], ops.simp(w_))]
+    gp = A.self.ghost_params
+    conds = [r is A.self, s.get("_is_fitted") is True, Eq(s["window_length_"], ops.simp(w_)),
+             # fit leaves every constructor parameter as it was passed (get_params() unchanged)
+             all(s.get(k_) is v_ for k_, v_ in gp.items())]
     if st == "mean" or (st == "last" and not (isinstance(sp, int) and sp == 1)):
         conds.append(Implies(Z(sp) != 1 if st == "last" else True, Eq(s.get("sp_", sp), sp)))
     return And(*conds)
 
 
-contract(f"{NV}::NaiveForecaster.fit", "C11,C20", cases=[f"{st}|{w}|{p}" for st in ("last", "mean", "drift", "bogus") for w in ("nowl", "wl")
+contract(f"{NV}::NaiveForecaster.fit", "C11,C20,C04", cases=[f"{st}|{w}|{p}" for st in ("last", "mean", "drift", "bogus") for w in ("nowl", "wl")
                                                           for p in ("sp1", "spint", "spbool", "spfloat")],
          inputs=_nvfit_inputs, raises=[("ValueError", _nvfit_bad)],
-         ensures=[("fitted-window-is-sp-/-window_length-/-the-whole-series", _nvfit_post)],
+         ensures=[("fitted-window-is-sp-/-window_length-/-the-whole-series-and-constructor-parameters-unchanged", _nvfit_post)],
          frame=lambda A: [A.y],
          notes=["parameters are validated whatever the strategy uses: sp an integer >= 1 (bool / float rejected), window_length None or an "
                 "integer >= 1; mean: window_length >= sp; drift: window_length != 1; the fitted window must not exceed the series"])
